@@ -343,6 +343,12 @@ def g2_lift_close_pin(ctx: Ctx):
               'pinning a context that contradicts the inferred one is refused', 'conflict check changed')
 
 
+def _d1_partial_eval(ctx: Ctx):
+    # what LiftContext hoists out of a loop is what PartialEval reports static there; the loop handling of that analysis is decided in c13
+    from .c13 import d2_partial_eval
+    d2_partial_eval(ctx)
+
+
 EXPLANATION = (
     'Static rules over FuncInline, LiftContext, FreeVarElim and Monomorphize (ast only). Decided: (S1) FuncInline never '
     'splices a callee body out of an arm of a conditional expression, a later operand of and/or, a comprehension element '
@@ -367,11 +373,15 @@ RULES = [
     Rule('C09.P4', 'names the callee captures are reserved before any name is minted, and a caller that binds one of them is refused', p4_captured_names, 3, 'P'),
     Rule('C09.G1', 'a refused call site consumes no index', g1_refusal_before_index, 2, 'G'),
     Rule('C09.G2', 'LiftContext / FreeVarElim / Monomorphize change only what they state', g2_lift_close_pin, 14, 'G'),
+    Rule('C09.D1', 'a constructor is hoisted out of a loop only if its arguments are constant there: constants at merges and loop heads (= C13.D2, partial evaluation)', _d1_partial_eval, 12, 'D'),
 ]
 
 from ..selftest import Mutant  # noqa: E402
 
 MUTANTS = [
+    Mutant('stale-values-kept-after-an-inner-loop', 'fpy2/analysis/partial_eval.py', "        self.by_expr.pop(e, None)\n        super()._visit_expr(e, ctx)",
+           "        if getattr(self, '_revisiting', True):\n            self.by_expr.pop(e, None)\n        super()._visit_expr(e, ctx)", 'C09.D1',
+           'seeded change C09d (with the flag cleared when an inner loop converges): a loop-varying constructor is hoisted'),
     Mutant('ifexpr-arms-unmasked', INLINE, "        ift = self._visit_expr(e.ift, arm)\n        iff = self._visit_expr(e.iff, arm)", "        ift = self._visit_expr(e.ift, ctx)\n        iff = self._visit_expr(e.iff, ctx)", 'C09.S1',
            'the defect repaired by the fix: commit'),
     Mutant('boolop-tail-unmasked', INLINE, "            args += [self._visit_expr(arg, tail) for arg in e.args[1:]]", "            args += [self._visit_expr(arg, ctx) for arg in e.args[1:]]", 'C09.S1'),
